@@ -90,7 +90,7 @@ RET_REPL = {
     "Result<u64, ()>": ["Result<u32, ()>", "Result<(), ()>", "u64"],
     "X": ["u64", "u32"],
     "Self::Ret": [],
-    "Result<u32, ()>": ["Result<u64, ()>", "Result<Pair, ()>"],
+    "Result<u32, ()>": ["Result<u64, ()>", "Result<Pair, ()>", "Result<u32, u8>"],
     "Option<u32>": ["Option<u64>", "Option<Pair>"],
 }
 
@@ -214,6 +214,15 @@ BASES = [
                                   assoc="#[wrap_with_obj(Inner)] type Ret: Inner + 'static;")], main="Tr")),
     ("arg_obj", True, Def([Trait("Inner", [Meth("i0", "&self", [], "u32"), Meth("i1", "&self", [], "u32"), Meth("i2", "&self", [("a", "u64")], "u64")]),
                            Trait("Tr", [Meth("m0", "&mut self", [("obj", "&mut InnerBox<'static>")], "u32")])], main="Tr")),
+    # every wrapped shape used TWICE (identical signatures): an edit of the later use must be seen although an equal
+    # type was already compared earlier in the same walk
+    ("twice", True, Def([Trait("Tr", [Meth("m0", "&self", [("a", "&[u32]"), ("b", "Option<u32>")], "Result<u32, ()>"),
+                                      Meth("m1", "&self", [("a", "&[u32]"), ("b", "Option<u32>")], "Result<u32, ()>"),
+                                      Meth("m2", "&mut self", [("a", "OpaqueCallback<u32>"), ("b", "CIterator<u32>")], "Option<u32>"),
+                                      Meth("m3", "&mut self", [("a", "OpaqueCallback<u32>"), ("b", "CIterator<u32>")], "Option<u32>")])], main="Tr")),
+    ("grp_res", True, Def([Trait("Ta", [Meth("a0", "&self", [("a", "&[u32]")], "Result<u32, ()>")]),
+                           Trait("Tb", [Meth("b0", "&self", [("a", "&[u32]")], "Result<u32, ()>")])],
+                          group=("Grp", ["Ta"], ["Tb"]))),
     ("super_send", False, one("m0", "&self", [("a", "u64")], "u64", supers="Send")),
     ("grp5", False, Def([simple_trait("Ta", "a0"), simple_trait("Tb", "b0"), simple_trait("Tc", "c0"),
                          simple_trait("Td", "d0"), simple_trait("Te", "e0")],
